@@ -288,7 +288,8 @@ Definition c01_wrap_all (l : list Q) : list Q :=
 (* ---------------------------------------------------------------------------------------------- *)
 (* lazily derived attributes (grid/grid.py): Grid.node_lon / Grid.node_lat populate BOTH coordinates from
    xyz when absent and then wrap the longitudes; Grid.face_areas computes areas only when the source
-   supplied none, and Grid.face_jacobian goes through that getter.  State = what Grid._ds holds.        *)
+   supplied none; Grid.face_jacobian calls compute_face_areas() for the jacobian only and stores nothing
+   in Grid._ds.  State = what Grid._ds holds.                                                          *)
 
 Record c01_lazy := { lz_lon : option (list Q); lz_areas : option (list Q) }.
 
@@ -302,11 +303,12 @@ Definition c01_rd_step (derived_lon computed : list Q) (s : c01_lazy) (r : c01_r
       | Some _ => s
       | None => {| lz_lon := Some (c01_wrap_all derived_lon); lz_areas := lz_areas s |}
       end
-  | RdFaceAreas | RdFaceJacobian =>
+  | RdFaceAreas =>
       match lz_areas s with
       | Some _ => s
       | None => {| lz_lon := lz_lon s; lz_areas := Some computed |}
       end
+  | RdFaceJacobian => s               (* `_, self._face_jacobian = self.compute_face_areas()` *)
   | RdOther => s
   end.
 
@@ -316,7 +318,7 @@ Definition c01_reader_state (lon : list Q) (areas : option (list Q)) : c01_lazy 
   {| lz_lon := Some (c01_wrap_all lon); lz_areas := areas |}.
 
 Definition c01_reads_area (r : c01_rd) : bool :=
-  match r with RdFaceAreas | RdFaceJacobian => true | _ => false end.
+  match r with RdFaceAreas => true | _ => false end.
 
 Definition c01_rd_run (derived_lon computed : list Q) (s : c01_lazy) (rs : list c01_rd) : c01_lazy :=
   fold_left (c01_rd_step derived_lon computed) rs s.
